@@ -474,7 +474,7 @@ class Driver:
                 if h["type"] == "warmup":
                     self.s.warmup(h["n"], tune_freq=h.get("tune_freq", 0.1))
                 else:                                   # reload: state of ANOTHER sampler object that ran n steps
-                    other = Driver(self.site, self.T, h["scale2"], h["x02"], prior=self.prior_spec, opts=self.opts)
+                    other = Driver(self.site, Tgt(self.T.spec), h["scale2"], h["x02"], prior=self.prior_spec, opts=self.opts)
                     other.s.sample(h["n"])
                     st = other.s.get_state()
                     self.s.set_state(st)
@@ -626,7 +626,8 @@ def scratch(drv, scale):
     if o.get("rng"):
         o["rng"] = "scripted"            # same code path (a generator object is supplied), controllable noise
     o["x0form"] = "array"
-    return Driver(drv.site, drv.T, scale, np.ones(drv.T.dim), prior=drv.prior_spec, opts=o)
+    # its own target object: a scratch sampler must not share work buffers (reused gradient array) with the sampler under test
+    return Driver(drv.site, Tgt(drv.T.spec), scale, np.ones(drv.T.dim), prior=drv.prior_spec, opts=o)
 
 
 def propose(scr, x, z):
@@ -1981,8 +1982,17 @@ def _witness_dtype(ctx):
     return (c.impl_fail is not None and c.signature.endswith(SIG_DTYPE)), (c.impl_fail or "accepted coordinates are stored as proposed")
 
 
+def _witness_gradbuf(ctx):
+    spec = {"site": "E.MALA", "target": {"kind": "quad", "P": [[1.0]], "m": [0.0], "c": 0, "hole": None, "gradbuf": True}, "prior": None,
+            "scale": 1.0, "x0": [0.0], "z": [2.0], "hist": {"type": "fresh", "seed": 0, "n": 0}, "ustrat": "rand", "u": [0.9],
+            "hole_class": None, "exact": False, "opts": {}, "optcell": "gradient=reused-buffer"}
+    c, _ = build_case(ctx, spec)
+    return (c.impl_fail is not None and c.signature.endswith(SIG_GRADBUF)), (c.impl_fail or "decision agrees with the MH probability; cached gradient intact")
+
+
 def known_witnesses(ctx):
     out = {}
+    out[SITES["E.MALA"]["sig"] + SIG_GRADBUF] = _witness_gradbuf(ctx)
     out[SITES["E.CWMH"]["sig"] + SIG_DTYPE] = _witness_dtype(ctx)
     for site in ("E.MH", "L.MH"):
         out[SITES[site]["sig"] + SIG_NOTCENTRED] = _witness_notcentred(ctx, site)
